@@ -297,6 +297,10 @@ func (f *Forwarder) ServeDNS(ctx context.Context, ch *middleware.Chain) {
 		}
 
 		resp.Id = req.Id
+		// It is relayed as the reply to this query whatever the upstream put
+		// in those bits: the exchange checks the ID and the question only.
+		resp.Response = true
+		resp.Opcode = req.Opcode
 		// The upstream's question was accepted because it matches the one
 		// asked up to letter case; the client is owed its own spelling back.
 		if len(resp.Question) > 0 {
